@@ -170,9 +170,18 @@ def build_hdyn(include=None, tag=""):
         return exe, None
     os.makedirs(out, exist_ok=True)
     procs = []
+    # the seed of the library's multiplier stream is read from the source: the harness replays the stream to
+    # tell the model which multipliers the search drew (the theorems hold for every stream)
+    seed_def = []
+    try:
+        m = re.search(r"default_random_engine\s+\w+\((\d+)\)", open(os.path.join(include, "yorel", "yomm2", "policies", "fast_perfect_hash.hpp")).read())
+        if m:
+            seed_def = ["-DHDYN_HASH_SEED=" + m.group(1)]
+    except OSError:
+        pass
     for s in srcs:
         o = os.path.join(out, s[:-4] + ".o")
-        cmd = ["g++"] + HDYN_FLAGS + ["-I" + include, "-c", os.path.join(HDYN_SRC, s), "-o", o]
+        cmd = ["g++"] + HDYN_FLAGS + seed_def + ["-I" + include, "-c", os.path.join(HDYN_SRC, s), "-o", o]
         procs.append((s, subprocess.Popen(cmd, stdout=subprocess.PIPE, stderr=subprocess.PIPE, text=True)))
     errs = []
     for s, p in procs:
